@@ -198,7 +198,8 @@ CLAIMS = {
              "day of the month; a TriangleSlice stream (direct construction, triangle_to_slice, chained indexing). Anchor coverage "
              "(tools/anchor_coverage.py): every anchored statement and branch arc of C11 is executed by the quick run.",
         note=COMMON_NOTE + "Month lags are floats in the code and exact rationals in the model: lag bounds are the "
-             "triangle's own lags (bit-identical) and lags +-1, kept where float and exact comparison agree.",
+             "triangle's own lags (bit-identical) and lags +-1, kept where float and exact comparison agree."
+             " Domain: canonical triangles (C01's invariant); period starts within date.min..date.max; clip lag bounds of the unit's type; for the n / n+1 lag complement every lag of the triangle is a whole number in the unit (always true for day / timedelta). Behaviour the words leave open, pinned by theorems: an absent detail key and one holding None land in the same split group (splitKey_missing_eq_none); a date as period index constrains the period start only (itemKeep_scalar). Not modelled: a falsy non-None end of an evaluation slice, truthy non-date slice ends, datetime.datetime indices; stepped positional slices t[i:j:k] are compared with C01's model only.",
         tech="Lean 4 proof (filter/sublist/partition algebra on sorted lists) + differential correspondence"),
     "C12": dict(level=PV, ref="§7 C12",
         text="53 kernel-checked theorems, none open, about the exact model of date_utils (incl. the date.max / inf sentinel short-circuits of calculate_dev_lag and add_months, Model/DateUtilsExt): addMonths_devLag_iff (the inverse law "
@@ -257,7 +258,8 @@ CLAIMS = {
              "statics, right-edge and in-memory-frame streams, ragged field sets, falsy-everywhere detail columns, twin files that "
              "differ only in column names loaded in one process; chainladder round trip Spec-only (third-party).",
         note=COMMON_NOTE + "pandas (dtype inference, NaN handling, date parsing, float formatting) is the trusted/opaque "
-             "layer; size-1/0-d arrays are canonicalised to their scalar as the property states 'numeric values as floats'.",
+             "layer; size-1/0-d arrays are canonicalised to their scalar as the property states 'numeric values as floats'."
+             " Audit follow-up: row counts are restated independently of the writer (scenarioCount of a cell = 1 for scalars, S for S-sample cells; rows_count_wide_scenarios / rows_count_long_scenarios give the one-to-one correspondence rows <-> (cell, scenario[, field])); matrixIndex_total removes the index as a hypothesis (fromMatrix_toMatrix_default, fromRich_toRich_default: semi-regular, two evaluation months, one inferred resolution divides the other); every domain predicate has an inhabitant (wflong_example, wfwideIncr_example, wflongIncr_example, exQ_matrix_example). Declared: from_long_data_frame with non-empty loss_detail_cols is modelled and checked by the correspondence but has no theorem (the proved long round trip is the from_long_csv call, where loss details come back as details); no corollary of fromWide_toWide for inferred detail_cols / field_cols (inference modelled and differential-checked only); the array-frame round trip is proved for one-field triangles, for several fields the pieces (fromArrayFrame_args, arrayBuilder_spec, C10 merge theorems) are proved but not composed.",
         tech="Lean 4 theorems over regenerated group-by tables + row-model differential correspondence"),
     "C15": dict(level=PV, ref="§7 C15",
         text="42 kernel-checked theorems for both bases, none open: rightTri_lags_exact, rightTri_metadata, rightTri_values_empty, "
@@ -275,7 +277,8 @@ CLAIMS = {
              "metadata, month-aligned from 1970 on, no coordinate occupied twice), BackfillOk (every cell the backfill loop would "
              "create passes the constructor's date rules - the Python loop stops at the first ValueError), a positive resolution; "
              "an explicit eval_resolution passed to fill_forward_gaps must divide the row's lag differences; backfill has no "
-             "per-slice completeness clause (see DESIGN §12.2).",
+             "per-slice completeness clause (see DESIGN §12.2)."
+             " Audit follow-up: make_right_diagonal(include_historic=True) is an explicit opt-in to historic dates and outside the clause 'never create a cell at an occupied coordinate': it places an empty cell at every requested date >= period start, also on observed coordinates (rightDiag_historic_recreates, rightDiag_historic_witness); for this flag the proved and checked clause set is rightDiagHistSpec (extensionSpec_model_rightDiag_historic: onGrid, complete, nodup, valuesEmpty, basis, chain, canonical). The Bool bridge extensionSpec_model_rightTri is proved for the month unit; for dev_lag_unit='day' the Prop-level theorems are unit-generic and the executable clauses onGrid / complete / nodup / emptyWhenComplete are checked on the implementation's output and by model = implementation only; 'timedelta' can only succeed when nothing is added. Success (.ok) is proved as totality for the right-hand operators on cumulative input and for backfill (rightDiag_total, rightTri_total, backfill_total') and as closed instances with the whole Spec in the conclusion for all four operators (exCells_rightTri_ok, exCells_rightDiag_ok, exFill_fill_ok, exBack_backfill_ok); no totality lemma for fill_forward_gaps or the incremental path. backfill fills only the lowest-metadata slice of each period (backfill_only_first_slice).",
         tech="Lean 4 proof (membership/structure of added cells, sorted-permutation uniqueness for the list equations) + Spec predicates on implementation outputs"),
     "C10": dict(level=PV, ref="§7 C10",
         text="82 kernel-checked theorems, none open, about the model of join (six types, with and without `on`), merge, coalesce, "
@@ -330,7 +333,7 @@ CLAIMS = {
              "component), premium_sums, premium_nonneg, premium_earned_le_written (convolution bound), disagg_conserves, "
              "disagg_tiling (sub-periods are the closed-form whole-month blocks tiling the period), aggregate_disagg "
              "(aggregating disaggregate_experience(t) back to the original resolution returns exactly the observable cells of t: "
-             "same coordinates once each across slices in triangle order, cumulative cells, same key sets and values; "
+             "same coordinates once each across slices in triangle order, cumulative cells, the selected fields with the input's values; "
              "aggregate_disagg_default discharges the rule hypothesis for the default field list by decide over the regenerated "
              "tables), and the Bool Spec bridges. CURRENCY_FIELDS and the interpolation-field list "
              "are regenerated from /repo each run. Correspondence over four streams (currency, disaggregation, policy "
@@ -340,7 +343,8 @@ CLAIMS = {
              "renormalisation, share and pattern normalisation). aggregate_disagg: canonical triangle and metadata, one period "
              "resolution L in all slices, aggregate called with (L, month), month-end origin on whose grid all period starts lie. "
              "Policy-year conversion with continuous_issuance=False "
-             "and accident periods no policy reaches is outside the share table's contract (reported as uncovered).",
+             "and accident periods no policy reaches is outside the share table's contract (reported as uncovered)."
+             " Audit follow-up: policyYear_conserves assumes policyCovered; by policyYear_covered_iff this is exactly 'every accident period is reached by a policy year of policy_years_covered' (month arithmetic on the inputs; policyYear_conserves_reached); with continuous issuance every first-of-month period start contained in a policy year is reached (policyYear_reached_of_contains); that the policy years contain every period start is evaluated by the driver on every case, not proved. currency_spec_bridge assumes no two cells collide after conversion; for twin-slice inputs (slices identical after conversion: the library keeps both cells and only warns) the statement is currency_spec (bijection, no such hypothesis; closed instance currency_twin_slices). aggregate_disagg precisely: aggregate(disaggregate_experience(t)) at the original resolution returns exactly the SELECTED fields (default DEFAULT_INTERPOLATION_FIELDS) of the cells of t whose first sub-period is over at their evaluation date, as CumulativeCells with the same metadata, period and evaluation date, each once and in triangle order, with exactly the input's numbers (ints come back as equal floats); every other field and every cell without an observable sub-period is dropped (disagg_drops_unselected, disagg_drops_unobservable); cumulative / plain-Cell triangles only - disaggregate_experience on incremental triangles is not modelled and not generated. One shape per field within a slice is assumed (the code does not check it).",
         tech="Lean 4 proof over Q (conservation laws, round trip through aggregate) + regenerated tables + differential correspondence"),
     "C20": dict(level=PV, ref="§7 C20",
         text="PARTIAL (altair/Vega-Lite validity is library behaviour, correspondence only). 25 kernel-checked theorems, none open, about the model of build_plot_data (both values of remove_empties: records_one_per_cell_in_order_opt, record_slots, spec_holds_on_model_opt) and FieldSummary: "
